@@ -153,3 +153,161 @@ func init() {
 }
 
 var _ = strings.Join
+
+// ---- rule TEXT level: syntax trees from spec/MC_RuleText.tla, rendered literally ----
+
+type rtVal struct {
+	Neg bool            `json:"neg"`
+	V   json.RawMessage `json:"v"`
+}
+
+type rtOpt struct {
+	Name string  `json:"name"`
+	Neg  bool    `json:"neg"`
+	Vals []rtVal `json:"vals"`
+}
+
+type rtTree struct {
+	White bool    `json:"white"`
+	Pat   []int   `json:"pat"`
+	Opts  []rtOpt `json:"opts"`
+}
+
+type rtRec struct {
+	Kind  string  `json:"kind"`
+	Reqs  []aReq  `json:"reqs,omitempty"`
+	Tree  *rtTree `json:"tree,omitempty"`
+	Error bool    `json:"error"`
+	Exp   []int   `json:"exp,omitempty"`
+}
+
+var rtListNames = map[string]bool{"domain": true, "denyallow": true, "dnstype": true, "ctag": true, "client": true}
+
+func (t *rtTree) text() (string, error) {
+	s := ""
+	if t.White {
+		s = "@@"
+	}
+	s += intsToString(t.Pat)
+	var opts []string
+	for _, o := range t.Opts {
+		x := o.Name
+		if o.Neg {
+			x = "~" + x
+		}
+		if rtListNames[o.Name] {
+			var vs []string
+			for _, v := range o.Vals {
+				var txt string
+				switch o.Name {
+				case "domain", "denyallow":
+					var h aHost
+					if err := json.Unmarshal(v.V, &h); err != nil {
+						return "", err
+					}
+					txt = h.String()
+				case "dnstype":
+					if err := json.Unmarshal(v.V, &txt); err != nil {
+						return "", err
+					}
+				case "ctag":
+					var c []int
+					if err := json.Unmarshal(v.V, &c); err != nil {
+						return "", err
+					}
+					txt = intsToString(c)
+				case "client":
+					var c aCli
+					if err := json.Unmarshal(v.V, &c); err != nil {
+						return "", err
+					}
+					txt = c.render(0)
+				}
+				if v.Neg {
+					txt = "~" + txt
+				}
+				vs = append(vs, txt)
+			}
+			x += "=" + strings.Join(vs, "|")
+		}
+		opts = append(opts, x)
+	}
+	if len(opts) > 0 {
+		s += "$" + strings.Join(opts, ",")
+	}
+	return s, nil
+}
+
+// vh replay-ruletext in=<records.ndjson> out=<mismatches.ndjson>
+func cmdReplayRuleText(args []string) error {
+	m := argMap(args)
+	recs, err := readND[rtRec](m["in"])
+	if err != nil {
+		return err
+	}
+	out, err := newNDWriter(m["out"])
+	if err != nil {
+		return err
+	}
+	defer out.close()
+	var reqs []aReq
+	for _, r := range recs {
+		if r.Kind == "REQS" {
+			reqs = r.Reqs
+		}
+	}
+	env := &envStats{}
+	real := make([]*rules.Request, len(reqs))
+	for i := range reqs {
+		if real[i], err = reqs[i].build(env); err != nil {
+			return err
+		}
+	}
+	texts, evals, mism, errorsExp, posExp := 0, 0, 0, 0, 0
+	var samples []string
+	for _, rec := range recs {
+		if rec.Kind != "TEXT" {
+			continue
+		}
+		texts++
+		text, err := rec.Tree.text()
+		if err != nil {
+			return err
+		}
+		if len(samples) < 8 && texts%211 == 5 {
+			samples = append(samples, fmt.Sprintf("%s  (error expected: %v)", text, rec.Error))
+		}
+		if rec.Error {
+			errorsExp++
+		}
+		rule, perr := rules.NewNetworkRule(text, 1)
+		if (perr != nil) != rec.Error {
+			mism++
+			out.write(map[string]any{"text": text, "why": "accepted / rejected", "expected_error": rec.Error, "got_error": fmt.Sprint(perr), "cause": "parse-outcome", "case": rec})
+			continue
+		}
+		if perr != nil {
+			evals++
+			continue
+		}
+		for k := range reqs {
+			evals++
+			exp := rec.Exp[k] == 1
+			if exp {
+				posExp++
+			}
+			got, pv := safeMatch(rule, real[k])
+			if got != exp || pv != "" {
+				mism++
+				out.write(map[string]any{"text": text, "why": "match on " + reqs[k].describe(), "expected": exp, "got": got, "panic": pv, "cause": "match", "case": rec, "req": reqs[k]})
+				break
+			}
+		}
+	}
+	summary(map[string]any{"texts": texts, "evaluations": evals, "mismatches": mism, "errors_expected": errorsExp, "expected_matches": posExp, "samples": samples})
+	return nil
+}
+
+func init() {
+	register("replay-ruletext", cmdReplayRuleText)
+}
